@@ -519,8 +519,7 @@ def program_runs(ctx, tg, tga):
                 ctx.count("program:sizes-compared")
         ctx.sample(dict(kind="program", args=jobs[5][2], model_sizes=jobs[5][1]["_model_sizes"]))
         malformed_files(ctx, tg, tga, work, env)
-        if not quick:
-            valgrind_runs(ctx, tg, work)
+        valgrind_runs(ctx, tg, work, quick)
     finally:
         shutil.rmtree(work, ignore_errors=True)
     return dis
@@ -605,8 +604,11 @@ def malformed_files(ctx, tg, tga, work, env):
         ctx.case_done(("file", case["file"], " ".join(args[-6:])), True)
 
 
-def valgrind_runs(ctx, tg, work):
-    """thorough tier: uninitialised reads (memcheck) on the plain build for the text readers"""
+def valgrind_runs(ctx, tg, work, quick=False):
+    """memcheck on the plain build (-O1, no -march=native: valgrind can run it).  Thorough tier: the text readers (uninitialised
+    reads) and whole runs; quick tier: two whole runs with a wake (single bunch, three buckets with an empty one) - memory errors
+    INSIDE the uninstrumented libraries (FFTW, HDF5: a plan destroyed after fftwf_cleanup, a buffer freed twice) are invisible to
+    the sanitizer build, which only instruments the repository's own code (seed F1-J)."""
     if not shutil.which("valgrind"):
         ctx.notes.append("valgrind not found")
         return
@@ -625,6 +627,9 @@ def valgrind_runs(ctx, tg, work):
         open(p, "w").write(text)
         jobs.append((name, text, base + ["-i", p]))
     jobs.append(("plain", "", base))
+    jobs.append(("plain_train", "", base + ["-I", "1e-3", "0", "5e-4", "-o", os.path.join(work, "vtrain.h5")]))
+    if quick:
+        jobs = [j for j in jobs if j[0] in ("plain", "plain_train")]
 
     res = bc.pmap(lambda j: run_valgrind(tg, j[2], work), jobs)
     for (name, text, args), (rc, so, err) in zip(jobs, res):
